@@ -539,13 +539,26 @@ fn mode_tptp(case: &Value, out: &mut Vec<Value>) {
             return;
         }
     };
+    // placeholders: {"n": "i" | "g" | "s"} turn the symbolic constants of that name into sorted function constants
+    let mut mapping: indexmap::IndexMap<String, fol::FunctionConstant> = indexmap::IndexMap::new();
+    if let Some(m) = case.get("placeholders").and_then(|x| x.as_object()) {
+        for (k, v) in m {
+            let sort = match v.as_str().unwrap_or("g") {
+                "i" => fol::Sort::Integer,
+                "s" => fol::Sort::Symbol,
+                _ => fol::Sort::General,
+            };
+            mapping.insert(k.clone(), fol::FunctionConstant { name: k.clone(), sort });
+        }
+    }
+    let f = f.replace_placeholders(&mapping).universal_closure();
     let mut syms = BTreeSet::new();
     tree::fol_formula_syms(&f, &mut syms);
     let rk = Ranks::from_set(&syms);
     match guarded(|| anthem::formatting::fol::sigma_0::tptp::Format(&f).to_string()) {
         Err(p) => out.push(json!({"id":id,"kind":"panic","text":text,"panic":p})),
         Ok(t) => out.push(json!({
-            "id": id, "kind": "tptp", "text": text, "nsyms": rk.0.len(), "syms": rk.0,
+            "id": id, "kind": "tptp", "text": f.to_string(), "nsyms": rk.0.len(), "syms": rk.0,
             "f": tree::formula(&f, &rk), "tptp": t,
             "preds": f.predicates().iter().map(tree::predicate).collect::<Vec<_>>(),
             "fcs": f.function_constants().iter().map(|c| json!({"c":c.name,"s":tree::sort(&c.sort)})).collect::<Vec<_>>(),
